@@ -260,6 +260,37 @@ def check_user_variables_override_entrypoint(ctx) -> None:
                "down the call chain and substituted into the components" % ", ".join(short(l, 40) for l in layers),
                construct="override_entrypoint_args = entrypoint args, then user variables")
     ctx.floor(RID, n, 1, "constructions of the entrypoint overrides in DSLExperimentConfiguration.__init__")
+    # the compiler's side of the same layering (seed C06-13): where a function of dsl.py folds its `override_entrypoint_args` parameter into
+    # a dictionary, no update of that dictionary from the entrypoint's own arguments can follow it
+    dm = ctx.repo.module("python/experiment/model/frontends/dsl.py")
+    n2 = 0
+    for q, f in dm.functions.items():
+        if "override_entrypoint_args" not in [a.arg for a in f.args.args + f.args.kwonlyargs]:
+            continue
+        ups = [c for c in source.calls_in(f) if last_attr(c) == "update" and isinstance(c.func.value, ast.Name) and c.args]
+        ov_ups = [c for c in ups if any(isinstance(x, ast.Name) and x.id == "override_entrypoint_args" for x in ast.walk(match.resolve_local(f, c.args[0])))]
+        if not ov_ups:
+            continue
+        cfg = CFG(f)
+
+        def node_of(c):
+            return next((nd for nd in cfg.nodes if nd.ast is not None and nd.kind in ("stmt", "test") and any(c is x for x in ast.walk(nd.ast))), None)
+        for u in ov_ups:
+            n2 += 1
+            un = node_of(u)
+            ctx.require(un is not None, "cannot locate the CFG node of %s" % short(u, 60))
+            after = cfg.reach([un], include_starts=False)
+            late = [e for e in ups if e is not u and e.func.value.id == u.func.value.id
+                    and any(isinstance(x, ast.Attribute) and x.attr == "entrypoint" for x in ast.walk(match.resolve_local(f, e.args[0])))
+                    and node_of(e) is not None and node_of(e).id in after]
+            ctx.ob(RID, late[0] if late else u, not late,
+                   "%s lays override_entrypoint_args over the entrypoint's own arguments (nothing from the entrypoint is applied afterwards)"
+                   % q.split(".")[-1] if not late else
+                   "%s applies the entrypoint's own arguments (%s) AFTER override_entrypoint_args: a parameter that the entrypoint sets explicitly "
+                   "keeps the entrypoint's value although the caller (the user's variable files, through DSLExperimentConfiguration) overrides it"
+                   % (q.split(".")[-1], short(late[0], 60)),
+                   construct="%s: override_entrypoint_args is the last layer of %s" % (q.split(".")[-1], u.func.value.id))
+    ctx.require(n2 >= 1, "anchor missing: no function of dsl.py folds override_entrypoint_args into a dictionary with update()")
 
 
 def check_split_full_prefix(ctx, d) -> None:
@@ -467,6 +498,72 @@ def check_substitution_traverses_dictionaries(ctx, d) -> None:
             "dictionary: args {env: {GREETING: '%%(greeting)s'}} keeps the reference, it reaches the FlowIR environment unresolved and is later "
             "resolved against the entry workflow's global variable instead of the argument supplied along the call chain" % ", ".join(validators)),
            construct="replace_parameter_references: dictionary values are substituted too")
+
+
+    # the converse (defect e6ed940): once the substitution looks inside dictionaries, the check that an argument only references parameters
+    # of the PARENT has to look there too - otherwise a reference it never saw sends the substitution past the root scope (KeyError(()))
+    def is_dict_test(t: ast.AST) -> bool:
+        return isinstance(t, ast.Call) and call_name(t) == "isinstance" and len(t.args) == 2 and "dict" in source.src(t.args[1])
+    n_chk = 0
+    for q, f in d.functions.items():
+        if q.count(".") > 1:
+            continue
+        for lp in [x for x in source.walk_own(f, include_nested=False) if isinstance(x, ast.For)]:
+            it = lp.iter
+            if not (isinstance(it, ast.Call) and last_attr(it) == "items" and isinstance(it.func.value, ast.Attribute) and it.func.value.attr == "parameters"):
+                continue
+            finds = [c for c in ast.walk(lp) if isinstance(c, ast.Call) and last_attr(c) in ("findall", "finditer")]
+            parent_words = any(isinstance(x, ast.Constant) and isinstance(x.value, str) and "parent" in x.value for x in ast.walk(lp))
+            if not finds or not parent_words:
+                continue
+            n_chk += 1
+            helpers = {last_attr(c) or call_name(c) for c in ast.walk(lp) if isinstance(c, ast.Call)}
+            nested = [g for g in ast.walk(f) if isinstance(g, ast.FunctionDef) and g is not f and g.name in helpers]
+            looks = any(is_dict_test(t) for t in ast.walk(lp)) or any(is_dict_test(t) for g in nested for t in ast.walk(g))
+            ok = looks or not recurses
+            ctx.ob(rule, lp, ok,
+                   "the parent-parameter check of %s reaches the strings inside dictionary-valued arguments" % q.split(".")[-1] if looks else
+                   ("neither the check nor the substitution looks inside dictionaries" if ok else
+                    "replace_parameter_references substitutes inside dictionary-valued arguments, but the check in %s that an argument references "
+                    "only parameters of its parent looks at string arguments alone: args {env: {FOO: '%%(bar)s'}} with no parameter 'bar' in the "
+                    "parent passes it, the substitution walks past the root scope and namespace_to_flowir ends with KeyError(()) instead of a "
+                    "located DSLInvalidError" % q.split(".")[-1]),
+                   construct="%s: parent-parameter check covers dictionary values" % q.split(".")[-1])
+    ctx.require(n_chk >= 1, "anchor missing: the loop that checks an argument's references against the parameters of the parent")
+    # and the environment a component template spells out itself is registered with its parameter references resolved (defect ad80624)
+    dg = d.functions.get("digest_dsl_component")
+    ctx.require(dg is not None, "anchor missing: digest_dsl_component in dsl.py")
+    ctx.analysed(dg)
+    handed = [k.value for c in source.calls_in(dg) if call_name(c) == "ComponentFlowIR" for k in c.keywords if k.arg == "environment"]
+    env_names = {h.id for h in handed if isinstance(h, ast.Name)}
+    ctx.require(bool(env_names), "anchor missing: ComponentFlowIR(environment=<local>) in digest_dsl_component")
+    raw_names = set(match.locals_where(dg, lambda v: (dotted(v) or "").endswith("command.environment")))
+    ctx.require(bool(raw_names), "anchor missing: <local> = scope.template.command.environment in digest_dsl_component")
+    gcfg = CFG(dg)
+    for rn in sorted(raw_names):
+        defs = [n for n in gcfg.nodes if n.kind == "stmt" and isinstance(n.ast, ast.Assign) and any(isinstance(t, ast.Name) and t.id == rn for t in n.ast.targets)]
+        raw_defs = [n for n in defs if (dotted(n.ast.value) or "").endswith("command.environment")]
+        others = [n for n in defs if n not in raw_defs]
+        aliases = [n for n in gcfg.nodes if n.kind == "stmt" and isinstance(n.ast, ast.Assign) and isinstance(n.ast.value, ast.Name) and n.ast.value.id == rn
+                   and any(isinstance(t, ast.Name) and t.id in env_names for t in n.ast.targets)]
+        # the raw dictionary of the template reaches `environment = <local>` on a path that never replaced the local and that takes the
+        # tests of `isinstance(<local>, dict)` consistently
+        stable = ["isinstance(%s, dict)" % rn]
+        reach = match.reach_consistent(gcfg, raw_defs, stable, blocked=others)
+        for al in aliases:
+            # ... and is a dictionary there (the alias sits on the true side of the dict test, or no test at all)
+            dict_side = [(t, "T") for t in gcfg.nodes if t.kind == "test" and t.ast is not None and source.src(t.ast) == stable[0]]
+            is_dict_here = not dict_side or match.only_via_edges(gcfg, al, dict_side)
+            raw = al.id in reach and is_dict_here
+            ctx.ob(rule, al.ast, not raw,
+                   "a dictionary the template spells out is resolved with replace_parameter_references before it becomes the environment of the instance"
+                   if not raw else
+                   "digest_dsl_component registers the dictionary of the TEMPLATE (%s) as the environment of the instance without resolving the "
+                   "component's parameters in its values: environment {FOO: '%%(foo)s'} reaches FlowIR unresolved and two instances of the template "
+                   "with different arguments share one environment" % rn,
+                   construct="digest_dsl_component: %s" % short(al.ast, 60))
+        ctx.require(bool(aliases) or any(isinstance(st.value, ast.Call) for st in source.walk_own(dg) if isinstance(st, ast.Assign) and any(
+            isinstance(t, ast.Name) and t.id in env_names for t in st.targets)), "C06.R14: digest_dsl_component builds the environment in a form the rule does not know")
 
 
 def check_first_element_access(ctx, d) -> None:
@@ -1040,6 +1137,22 @@ def run(ctx) -> None:
                        "the ignore list used while resolving a component's body is not that component's variables (%s)" % (short(v, 40) if v is not None else "missing"))
             else:
                 ok = v is None or (isinstance(v, ast.Constant) and v.value is None)
+                if not ok and source.src(v).endswith("template.variables") and c.args or (not ok and "value" in kw):
+                    # a field of the component TEMPLATE itself (not an argument of the caller) resolved outside ComponentFlowIR: every
+                    # definition of the value that reaches the call reads it off <scope>.template
+                    val = c.args[0] if c.args else kw["value"]
+                    if isinstance(val, ast.Name) and source.src(v).endswith("template.variables"):
+                        fcfg = CFG(fn)
+                        at = [n_ for n_ in fcfg.nodes if n_.ast is not None and n_.kind == "stmt" and any(c is x for x in ast.walk(n_.ast))]
+                        if at:
+                            from vlib import flow as _flow
+                            rd = _flow.reaching_defs(fcfg, val.id).get(at[0].id, frozenset())
+                            vals = [_flow.def_value(fcfg, d_, val.id) if d_ >= 0 else None for d_ in rd]
+                            if vals and all(x is not None and ".template." in (dotted(x) or "") for x in vals):
+                                ctx.ob("C06.R5-ignore-list-scope", c, True,
+                                       "a field of the component template itself (%s) is resolved with that component's variables as the ignore list"
+                                       % short(vals[0], 50))
+                                continue
                 ctx.ob("C06.R5-ignore-list-scope", c, ok,
                        "arguments passed along the call chain are resolved with an empty ignore list (every %(name)s is a parameter of the caller)" if ok else
                        "argument values supplied by the caller are resolved with a non-empty ignore list (%s): a parameter reference whose "
